@@ -29,8 +29,8 @@
    Abstractions: write k carries WSize(k) bytes, the k-th message handed out by a member carries
    RSize(k) bytes (distinct powers of two: byte sums identify the set of messages).
    The per-scenario parameters and bounds live in st.b so that one TLC run can cover several
-   member sets / families:  b = [name, M, init, selIds, maxSel, maxW, maxR, maxP, probes, maxRac, hold]
-   (hold = TRUE: the family also issues writes that stay in flight).                               *)
+   member sets / families:  b = [name, M, init, selIds, maxSel, maxW, maxR, maxP, probes, maxRac, hold, cerr]
+   (hold = TRUE: the family also issues writes that stay in flight; cerr = members whose Close reports an error). *)
 EXTENDS Integers, Sequences, FiniteSets, FiniteSetsExt, TLC, Json
 
 CONSTANTS Members,   \* universe of member ids, e.g. {"m1","m2","m3"}
@@ -96,8 +96,9 @@ ReadMsg(st) ==       \* precondition: st.q # <<>>
                !.rac = IF st.status = "closed" THEN @ + 1 ELSE @]
 ReadClosed(st) == [st EXCEPT !.rac = @ + 1, !.last = [a |-> "read", ret |-> "closed", k |-> 0]]
 
+\* Close closes every member, also when some member's Close reports an error (b.cerr); the errors are joined into the result
 Close(st) == [st EXCEPT !.status = "closed", !.closes = [m \in Members |-> IF m \in st.b.M THEN @[m] + 1 ELSE @[m]],
-                        !.last = [a |-> "close", ret |-> "ok", k |-> 0]]
+                        !.last = [a |-> "close", ret |-> IF st.b.cerr \cap st.b.M # {} THEN "error" ELSE "ok", k |-> 0]]
 
 \* ---------------------------------------------------------------- internal (goroutine) steps
 \* transportIDLoop: m.mu.Lock(); if current # id { current = id }; Unlock()
